@@ -563,7 +563,7 @@ func TestVerif(t *testing.T) {
 		h.runConfig(k.Cfg, []Case{k})
 	} else {
 		cfgs := configs()
-		per := c.N(30, 400)
+		per := c.N(20, 400)
 		okPlan := socksrun.DialPlan{Kind: "ok", BindIP: []byte{10, 0, 0, 1}, BindPort: 4242}
 		var everAccepted []Warm // pairs some earlier configuration of this process accepts
 		for ci, ac := range cfgs {
@@ -623,7 +623,7 @@ func TestVerif(t *testing.T) {
 				}
 			}
 			// field-length boundaries (ULEN x PLEN grid, NMETHODS, domain lengths) on one configuration of each kind
-			if ci == 0 || ci == 3 || ci == 5 || ci == 6 || c.Thorough() {
+			if ci == 0 || ci == 5 || ci == 6 || c.Thorough() {
 				var vc *socksrun.Cred
 				if rp := rightPairs(ac); ac.Enabled && len(rp) > 0 {
 					vc = &rp[0]
